@@ -7,7 +7,8 @@
 (* SampleMod = SampleRes); smaller shapes are always complete.  Every case is printed through Emit with the exact rank *)
 (* of the raw and of the column-centred matrix, the constant-column flags and (resp) whether X_c'y_c # 0.  *)
 EXTENDS ExactRank, TLC, Json
-CONSTANTS MaxR, MaxC, FullCells, SampleMod, SampleRes, Ex, Kinds
+CONSTANTS MaxR, MaxC, FullCells, SampleMod, SampleRes, Ex, Kinds,
+          YNorm      \* TRUE: only responses with y[1] = 0 (y and 1 - y have the same centred direction up to sign)
 
 Vals == {-1, 0, 1}
 RECURSIVE Pow(_, _)
@@ -29,7 +30,7 @@ Init == \E B \in Mats :
              \/ /\ "pert" \in Kinds /\ kind = "pert" /\ y = <<>> /\ ex = Ex
                 /\ \E pos \in {<<1, 1>>, <<Len(B), Len(B[1])>>} : M = Perturb(B, pos[1], pos[2])
              \/ /\ "resp" \in Kinds /\ kind = "resp" /\ M = B /\ ex = 0 /\ Len(B) >= 2
-                /\ y \in [1..Len(B) -> {0, 1}]
+                /\ y \in [1..Len(B) -> {0, 1}] /\ (YNorm => y[1] = 0)
 Next == UNCHANGED vars
 Spec == Init /\ [][Next]_vars
 
